@@ -4,8 +4,15 @@ proof side : lean/SarpyModel/Props/C12.lean (over the reals, every latitude / lo
              NED and ENU matrices orthogonal with determinant +1, local-frame conversions invert each other in both
              modes and preserve length, wgs_84_norm is a unit vector, height-0 points lie on the ellipsoid, a point of
              height h is the surface point plus h times the ellipsoid normal, the normal is the ENU up axis,
-             ordering / shape lemmas.  NOT proved: exactness of the closed-form inverse (kept as `C12_inverse_exact : Prop`).
-tie        : the same generic definitions (lean/SarpyModel/Spec/Geo.lean) instantiated at Float (driver `geo ...`) are
+             ordering / shape lemmas.  Props/C12Inj.lean: the forward map is injective on latitude [-90, 90] x height > -b^2/a
+             (longitude off the poles).  Props/C12Inv.lean: the closed-form inverse (Heikkinen's formulas exactly as lines 70-92
+             write them: Cardano step, sextic relation, factorisation identity, sign of the conjugate factor) inverts the forward
+             map over the reals for latitude [-90, 90], longitude (-180, 180], height > -a(1-2e^2), validity flag and poles
+             included: `inverse_exact : C12_inverse_exact`.
+tie        : translator: translate/gen_geo.py regenerates Gen/Geo.lean from the AST of the imported geocoords.py (constants,
+             ecf_to_geodetic, geodetic_to_ecf, the NED / ENU matrices) on every run; Props/C12Bridge.lean proves Gen = Spec by rfl
+             for every scalar type, so a semantic change of the Python text breaks an obligation (then the oracles below search).
+             correspondence: the same generic definitions (lean/SarpyModel/Spec/Geo.lean) instantiated at Float (driver `geo ...`) are
              compared with sarpy.geometry.geocoords on a seeded grid; floats cross the line protocol as bit patterns;
              tolerances 1e-6 m / 1e-9 deg (the property's own figures), rounding noise is ~1e-9 m (3e-8 m at 1e8 m height)
 search     : direct oracles on the implementation alone: geodetic -> ECF -> geodetic round trip; a 50-digit evaluation of
@@ -33,7 +40,20 @@ REQUIRED = ['ned_matrix_orthogonal', 'enu_matrix_orthogonal', 'ned_matrix_det', 
             'constants_are_wgs84', 'forward_on_ellipsoid', 'forward_on_scaled_ellipsoid', 'forward_denominators_pos',
             'forward_eq_surface_add_up', 'forward_height_along_normal', 'enu_of_raised_point', 'forward_injective_in_height',
             'forward_ordering', 'inverse_ordering', 'forward_arr_get', 'inverse_arr_get', 'forward_nested',
-            'inverse_lon_exact_partial', 'inverse_equatorial_plane', 'inverse_exact_on_equator_partial']
+            'inverse_lon_exact_partial', 'inverse_equatorial_plane', 'inverse_exact_on_equator_partial',
+            # Props/C12Inj.lean: injectivity of the forward map
+            'sq_le_of_scaled_eq', 'zero_of_scaled_eq', 'foot_scale_unique', 'meridian_injective', 'forward_injective_on_domain',
+            'forward_injective', 'forward_at_north_pole', 'forward_at_south_pole', 'height_range_in_domain',
+            # Props/C12Inv.lean: exactness of the closed-form inverse
+            'cardano_sigma', 'heik_P_sextic', 'heik_factor', 'foot_quartic', 'heik_other_factor_neg', 'heik_R0_eq', 'heik_G_pos',
+            'heik_chain', 'cE2_lt_small', 'domain_B', 'heikR0_exact', 'inverse_lat_height_exact', 'ecfValid_forward',
+            'inverse_exact_on_domain', 'inverse_exact_at_poles', 'height_range_in_inverse_domain', 'inverse_exact',
+            'inverse_exact_on_surface', 'inverse_on_polar_axis', 'inverse_unique', 'forward_inverse_on_image',
+            # Props/C12Bridge.lean: Gen.Geo (regenerated from geocoords.py on every run) = Spec.Geo, by rfl
+            'gen_constants_eq', 'gen_geodeticToEcfLL_eq', 'gen_ecfValid_eq', 'gen_ecfToGeodeticLL_eq', 'gen_nedMatrix_eq',
+            'gen_enuMatrix_eq', 'gen_inverse_exact', 'gen_forward_injective']
+PROOF_TARGETS = ['SarpyModel.Props.C12', 'SarpyModel.Props.C12Inj', 'SarpyModel.Props.C12Inv', 'SarpyModel.Gen.Geo',
+                 'SarpyModel.Props.C12Bridge', 'SarpyModel.Drivers']
 
 TOL_M = 1e-6        # alarm: metres (positions, heights)
 TOL_DEG = 1e-9      # alarm: degrees (latitude, longitude)
@@ -229,7 +249,12 @@ def run(tier):
     from sarpy.geometry import geocoords as G
     chk = Check('C12', tier)
     rng = chk.rng
-    broken = chk.prove(['SarpyModel.Props.C12', 'SarpyModel.Drivers'], 'SarpyModel.Props.C12', 'Sarpy.Props.C12', REQUIRED)
+    # translator: regenerate Gen/Geo.lean from the text of the imported geocoords.py (constants, both conversions, matrices)
+    import gen_geo
+    gen_info = gen_geo.generate(os.path.join(os.path.dirname(os.path.dirname(os.path.abspath(__file__))), 'lean', 'SarpyModel', 'Gen', 'Geo.lean'))
+    broken = chk.prove(PROOF_TARGETS, 'SarpyModel.Props.C12Bridge', 'Sarpy.Props.C12', REQUIRED, gen_info)
+    if gen_info['unsupported']:
+        broken.append('translator could not express: ' + json.dumps(gen_info['unsupported']))
     scale = 1 if tier == 'quick' else 25
     n_g, n_e, n_l = 8000 * scale, 4000 * scale, 2000 * scale
 
@@ -690,8 +715,9 @@ def run(tier):
             'failing_inputs_by_key': per_key,
         })
         chk.assumptions += [
-            'exactness of the closed-form inverse over the reals is NOT proved (Props.C12.C12_inverse_exact is a definition, not a theorem); '
-            'it is checked numerically: sarpy inverse -> 50-digit forward map -> residual below 1e-6 m / 1e-9 deg on the seeded grid',
+            'exactness of the closed-form inverse is proved over the reals (Props.C12.inverse_exact) for the model definitions '
+            '(Spec.Geo.heikF..heikR0, ecfToGeodeticLL); that sarpy evaluates these formulas in IEEE doubles to 1e-6 m / 1e-9 deg is checked '
+            'numerically: sarpy inverse -> 50-digit forward map -> residual on the seeded grid, and model-at-Float vs sarpy',
             'IEEE-754 rounding and the libm / numpy elementary functions are not modelled: the Float instance of the model agrees with sarpy '
             'within 1e-6 m / 1e-9 deg on the grid (observed differences are in max_observed_difference)',
             'the local-frame theorems hold for the matrix built from any latitude / longitude; that the code obtains these from the reference point '
